@@ -148,7 +148,19 @@ def gen_case(rng):
             inputs[n] = {"t": "null"}
     g = ExprGen(rng, env)
     e = g.gen(rng.choice(["num", "num", "bool"]), rng.choice([1, 2, 3, 4, 5, 6, 7, 9]))
-    body = [Func("Mk", ["Kk", "Vv"], [Display(Var("Kk")), Return(Var("Vv"))]), Return(e)]
+    body = [Func("Mk", ["Kk", "Vv"], [Display(Var("Kk")), Return(Var("Vv"))])]
+    if env and rng.random() < 0.25:
+        # the expression stands in a block of its own, after another block (or a called method) used the same names for other
+        # values: an operand denotes the value its variable holds where the expression stands
+        shadow = [Decl([(False, [n], Num(float(rng.randrange(100, 200))))]) for n in env if rng.random() < 0.8]
+        if shadow and rng.random() < 0.5:
+            body.append(Func("Sh", list(env.keys())[:2], [Return(Num(1.0))]))
+            body.append(ExprS(Call("Sh", [Num(7.0) for _ in list(env.keys())[:2]])))
+        if shadow:
+            body.append(Branch(Logic("eq", Num(1.0), Num(1.0)), shadow + [Display(Var(list(env.keys())[0]))]))
+        body.append(Branch(Logic("eq", Num(1.0), Num(1.0)), [Return(e)]))
+    else:
+        body.append(Return(e))
     return (list(env.keys()), body, []), inputs
 
 
